@@ -54,3 +54,29 @@ add("C02",
     "property-based testing (proptest) on generated directory trees: walk results vs an independent read_dir traversal filtered with is_match",
     "Generated trees x base spellings x globs in four shapes (plain, invariant prefix, rooted, `.`/`..` prefix) are walked and compared as multisets with a reference traversal that shares no code with walkdir or wax; every match is additionally checked against the walk's component programs (pruning soundness).",
     "Trusted: the reference traversal; is_match as yardstick; paths compared component-wise; the base itself may but need not be yielded when the glob matches the empty path; trees of <= 24 entries on the sandbox's tmpfs.")
+add("C03",
+    "property-based testing (proptest) on generated trees: not(pattern) vs the same walk filtered per entry; pure-path checks of the exhaustive / non-exhaustive partition (hook)",
+    "Generated trees x underlying walks (path walks, glob walks, depth bounds) x negations (text, compiled, any of 1-3, nested, empty; biased to alternations / repetitions after tree wildcards) compared as sorted multisets with per-entry filtering; every ancestor/descendant pair of the tree is checked against the compiled exhaustive program.",
+    "Trusted: is_match of the negation pattern as the yardstick; the negation-partition hook (read-only accessor).")
+add("C13",
+    "model-based property testing (proptest): combinator stacks vs a pruned-tree model, with unreadable-directory tripwires in an unprivileged process",
+    "Generated trees x stacks (pruning glob / not / filter_entry tables with File and Tree verdicts anywhere, incl. the walk root) x a terminal pass-through probe: what reaches the end of the stack must be exactly the entries not beneath a discarded tree, each once; directories the model discards are made unreadable so that a missing cancellation surfaces as an error item.",
+    "Trusted: the pruned-tree model (verdicts from the negation-partition and component-program hooks), the reference traversal. 'Never read' is decided as 'never produced' (walkdir opens a directory before yielding it).")
+add("C14",
+    "property-based testing (proptest): per-entry algebraic identities on walks over generated trees",
+    "Every yielded entry - and every entry a pass-through filter observes, i.e. residue too - over generated trees x base spellings x globs (plain, prefixed, rooted, `..`) or path walks x depth bounds x both link behaviours is checked against the identities of the statement.",
+    "Trusted: std::path component semantics for comparisons; symlink_metadata/metadata for file types.")
+add("C15",
+    "property-based testing (proptest): depth- and link-bounded walks vs a depth-filtered reference traversal with the same link policy; constructor contracts",
+    "Generated trees with links (to files / directories, dangling, re-entrant) x globs with prefixes (incl. rooted) x every depth-behaviour constructor with bounds 0..6 x both link behaviours; Ok and error multisets must equal the reference; termination is judged by an item-count cap.",
+    "Trusted: the reference traversal's link policy ((dev, ino) of directories on the traversal path); globs whose invariant prefix is a symbolic link are outside the domain.",
+)
+add("C16",
+    "stateful / model-based property testing (proptest): generated layer sequences and their permutations vs a verdict-lattice model; exactly-once call logs",
+    "The history is a generated stack of not / filter_entry layers (repeats allowed) on a generated tree; every order must yield exactly the entries all layers keep (model is order-free), and every user filter must observe exactly the entries not beneath a discarded tree, each once - including entries discarded upstream.",
+    "Trusted: the verdict-lattice model; `not` layers are observed only through surrounding filters and the terminal probe.")
+add("C20",
+    "fault enumeration driven by property-based generation (proptest): exhaustive 0/1/2-fault placements per generated tree in an unprivileged process",
+    "For every generated tree up to 10 fault sites (unreadable directories incl. the base, dangling links, links re-entering an ancestor) are enumerated exhaustively for 0, 1 and 2 simultaneous faults (plus one larger subset) and walked bare, under pass-through filters and under a discarding stack: one error per reached fault naming its path, the rest of the walk equal to a fault-free walk of the readable part, pass-through in place and in order, io::Error conversion keeps the kind.",
+    "Trusted: the fault-aware reference traversal; runs as uid nobody so that chmod 000 is a real fault; exhaustive only for <= 2 simultaneous faults on trees of <= 14 entries.",
+    cat="fault_enumeration")
